@@ -769,6 +769,9 @@ fn main() {
             run.finish(1_000_000);
         }
     }
+    if let Some(p) = run.replay.clone() {
+        std::process::exit(replay(&p));
+    }
     let asset = assets::tiny_assets().into_iter().find(|a| a.format == "png").expect("tiny png");
     let n_chains = run.tier.pick(SHAPES.len() * 14, SHAPES.len() * 240);
     let mut rng = Rng::new(run.seed, "c05-chains");
@@ -932,6 +935,55 @@ fn judge(run: &mut Run, table: &mut BTreeMap<String, u64>, row: &Row, debug: boo
                 row.wit(),
             );
         }
+    }
+}
+
+/// Re-reads the signed asset of a witness under its settings, recomputes the reference with the
+/// OpenSSL CLI and reports whether the inconsistency is still there (exit 1) or gone (exit 0).
+fn replay(path: &std::path::Path) -> i32 {
+    use base64::Engine;
+    let v: Value = serde_json::from_slice(&std::fs::read(path).expect("replay file")).expect("json");
+    let w = &v["witness"];
+    let asset = base64::engine::general_purpose::STANDARD
+        .decode(w["signed_asset_png_b64"].as_str().expect("witness has no signed asset"))
+        .expect("b64");
+    let settings = &w["settings"];
+    let x5 = pki::pem_to_ders(w["x5chain_pem"].as_str().unwrap_or(""));
+    let mut anchors = pki::pem_to_ders(settings["trust"]["trust_anchors"].as_str().unwrap_or(""));
+    anchors.extend(pki::pem_to_ders(settings["trust"]["user_anchors"].as_str().unwrap_or("")));
+    let verify_trust = settings["verify"]["verify_trust"].as_bool().unwrap_or(true);
+    let on_allow = w["reference"]["on_allow_list"].as_bool().unwrap_or(false);
+    let eku_ok = w["reference"]["eku_accepted"].as_bool().unwrap_or(false);
+    let cli = pki::openssl_verify(&VerifyArgs { ee: &x5[0], untrusted: &x5[1..], anchors: &anchors, ..Default::default() });
+    let cli_ok = match cli {
+        Ok(r) => {
+            println!("replay: openssl verify now: ok={} {}", r.ok, r.detail);
+            r.ok
+        }
+        Err(e) => {
+            println!("INCONCLUSIVE: property=C05 replay: {e}");
+            return 2;
+        }
+    };
+    let expect = on_allow || (cli_ok && eku_ok);
+    let ctx = Context::new().with_settings(settings.to_string().as_str()).expect("settings");
+    let o = report::read_bytes_catch(ctx, "png", &asset);
+    let has = |code: &str| o.codes.iter().any(|c| c.0 == "active" && c.2 == code);
+    let (t, u) = (has("signingCredential.trusted"), has("signingCredential.untrusted"));
+    println!("replay: reference trusted={expect} (allow-list={on_allow} chain={cli_ok} eku={eku_ok}) verify_trust={verify_trust}");
+    println!("replay: observed state={} signingCredential.trusted={t} signingCredential.untrusted={u} failures={:?}", o.state, o.failure_codes());
+    let bad = if !verify_trust {
+        t || u || o.state == "Trusted"
+    } else if expect {
+        !t || u
+    } else {
+        t || !u || o.state == "Trusted"
+    };
+    println!("replay: {}", if bad { "inconsistent with the reference policy (reproduced)" } else { "consistent with the reference policy" });
+    if bad {
+        1
+    } else {
+        0
     }
 }
 
